@@ -6,7 +6,8 @@ receipt and performs the test-and-set before anything can be emitted; the contro
 a user packet only if no peer DISCONNECT was received (or a protocol error is being reported);
 emission sites are followed by io.close(); cause -> reason-code tables (extracted from MIR) carry the
 dedicated MQTT 5 codes and no error path uses 0x00/0x04. Combinations of initiators in time are not
-decided (the flag is a runtime bit; decided is that no path forgets to consult it)."""
+decided (the flag is a runtime bit; decided is that no path forgets to consult it). nothing-after (continued): every function of the connection state that both clears the queues (running the application's publish-ack callbacks) and closes the io closes it first.
+"""
 from facts import *
 from disp import *
 from symex import SymEx, term_str_v, cond_map, term_has
@@ -232,6 +233,23 @@ def nothing_after(F, R):
         R.ob('C15.nothing-after', '%s|shutdown|io-closed-before-first-await' % d.name, bool(closers) and not early,
              'the io dispatcher writes the final DISCONNECT and then drives Dispatcher::shutdown; if shutdown awaits before closing the io, responses of handlers that are still running are written after the DISCONNECT',
              b.loc(sorted(early)[0]) if early else None)
+    # application code that runs during teardown (the publish-ack callback, invoked by clear_queues with disconnected = true)
+    # gets a closed io: in every function of the connection state that both clears the queues and closes the io, the close
+    # comes first - otherwise a callback that re-routes the lost message through the sink writes a PUBLISH after the DISCONNECT
+    n = 0
+    for x in F.find(r'^v5::shared::MqttShared::'):
+        if '{closure' in x.path:
+            continue
+        clears = [bi for bi, t in x.calls_to(r'^v5::shared::MqttShared::clear_queues$')]
+        ends = {bi for bi, t in x.calls_to(r'^ntex_io::.*IoRef>::(close|terminate)$')}
+        if not clears or not ends:
+            continue
+        for bi in clears:
+            n += 1
+            late = sorted(e for e in ends if e in x.reachable_after(bi))
+            R.ob('C15.nothing-after', '%s|io-closed-before-the-queues-are-cleared' % x.path, not late,
+                 'clear_queues() runs the application\'s publish-ack callbacks (disconnected = true) while the io is still open and closes it afterwards: what such a callback sends through the sink is written after the endpoint\'s own DISCONNECT', x.loc(bi))
+    R.floor('C15.nothing-after', 'teardown functions that clear the queues and close the io', n, 3)
     R.assume('ntex-io refuses writes once shutdown has started (IoRef::encode on a closing io writes nothing): extern effect, confirmed by experiment in round 0')
 
 
